@@ -383,3 +383,110 @@ func callbackCalls(p *Prog, c ssa.CallInstruction, g *ssa.Function) []ssa.CallIn
 	}
 	return out
 }
+
+// Relock is a second acquisition of a mutex that the same goroutine already holds (sync mutexes are not reentrant: the
+// goroutine blocks on itself, and everybody else on the mutex it keeps).
+type Relock struct {
+	Fn  *ssa.Function
+	At  ssa.Instruction
+	Key LockKey
+	Via *ssa.Function // the callee that takes the lock, nil when fn locks directly
+}
+
+// translateKey re-expresses a callee's parameter-rooted lock key at a call site of the callee.
+func translateKey(k LockKey, args []ssa.Value) (LockKey, bool) {
+	s := string(k)
+	if strings.HasPrefix(s, "g:") {
+		return k, true
+	}
+	if len(s) < 2 || s[0] != 'p' || s[1] < '0' || s[1] > '9' {
+		return "", false
+	}
+	i := int(s[1] - '0')
+	if i >= len(args) {
+		return "", false
+	}
+	r, pth := RootPath(args[i])
+	return LockKey(rootName(r) + pth + s[2:]), true
+}
+
+// acquiresOf: the locks fn takes at some point of its execution (itself or through static repo callees, depth levels
+// deep), named in fn's own parameter space; value true = write lock.
+func (p *Prog) acquiresOf(fn *ssa.Function, depth int, seen map[*ssa.Function]bool) map[LockKey]bool {
+	out := map[LockKey]bool{}
+	if fn == nil || len(fn.Blocks) == 0 || seen[fn] {
+		return out
+	}
+	seen[fn] = true
+	defer delete(seen, fn)
+	for _, c := range Calls(fn, false) {
+		if _, isGo := c.(*ssa.Go); isGo {
+			continue
+		}
+		if op, ok := mutexOp(c); ok {
+			if _, isDefer := c.(*ssa.Defer); !isDefer && op.acquire {
+				out[op.key] = out[op.key] || !op.read
+			}
+			continue
+		}
+		if depth == 0 {
+			continue
+		}
+		if _, isDefer := c.(*ssa.Defer); isDefer {
+			continue
+		}
+		g := c.Common().StaticCallee()
+		if g == nil || !p.InRepo(g) {
+			continue
+		}
+		for k, w := range p.acquiresOf(g, depth-1, seen) {
+			if tk, ok := translateKey(k, c.Common().Args); ok {
+				out[tk] = out[tk] || w
+			}
+		}
+	}
+	return out
+}
+
+// Relocks lists, for fn, every acquisition (direct, or inside a statically called repo function up to three levels
+// down) of a mutex that fn's must-hold lockset already contains at that point, unless both holds are read locks.
+func (p *Prog) Relocks(fn *ssa.Function) []Relock {
+	var out []Relock
+	li := Locksets(fn, nil)
+	AllInstrs(fn, func(in ssa.Instruction) {
+		c, ok := in.(ssa.CallInstruction)
+		if !ok {
+			return
+		}
+		if _, isGo := in.(*ssa.Go); isGo {
+			return
+		}
+		if _, isDefer := in.(*ssa.Defer); isDefer {
+			return
+		}
+		h := li.Before[in]
+		if len(h) == 0 {
+			return
+		}
+		if op, ok := mutexOp(c); ok {
+			if w, held := h[op.key]; held && op.acquire && (w || !op.read) {
+				out = append(out, Relock{fn, in, op.key, nil})
+			}
+			return
+		}
+		g := c.Common().StaticCallee()
+		if g == nil || !p.InRepo(g) {
+			return
+		}
+		for k, w := range p.acquiresOf(g, 3, map[*ssa.Function]bool{}) {
+			tk, ok := translateKey(k, c.Common().Args)
+			if !ok {
+				continue
+			}
+			if hw, held := h[tk]; held && (hw || w) {
+				out = append(out, Relock{fn, in, tk, g})
+			}
+		}
+	})
+	return out
+}
